@@ -7,10 +7,25 @@
 (***************************************************************************)
 EXTENDS Naturals, Sequences, TLC, Json
 
-CONSTANTS Algs, Muts
+CONSTANTS Algs, Muts, Fixed
 
-Scn == [alg : Algs, typ : {"SAMLRequest", "SAMLResponse"}, relay : BOOLEAN,
+\* RelayState by the characters it contains: the two form encoders in the package (six.moves = the standard library in
+\* pack.py, future.backports in sigver.py as pinned) and RFC 3986 quoting differ on exactly these classes
+RelayClasses == {"none", "amp", "space", "tilde", "unreserved", "unicode"}
+Scn == [alg : Algs, typ : {"SAMLRequest", "SAMLResponse"}, relay : RelayClasses,
         mut : Muts, cert : {"own", "other"}]
+
+\* how an encoder spells a character class (abstractly: two spellings are equal iff the same token)
+Spell(enc, class) == CASE class = "tilde" -> IF enc = "form_backport" THEN "pct" ELSE "literal"
+                       [] class = "space" -> IF enc = "rfc3986" THEN "pct" ELSE "plus"
+                       [] OTHER -> "same"
+\* the three places a query string is produced: the string that is signed, the string put on the wire
+\* (http_redirect_message), the string the verifier rebuilds from decoded parameters (verify_redirect_signature)
+SignEnc == "form_std"
+WireEnc == "form_std"
+VerifyEnc == IF Fixed THEN "form_std" ELSE "form_backport"
+RebuildSame(s) == Spell(SignEnc, s.relay) = Spell(VerifyEnc, s.relay)
+WireSame(s) == Spell(SignEnc, s.relay) = Spell(WireEnc, s.relay)
 
 VARIABLES scn, pc, verdict
 vars == <<scn, pc, verdict>>
@@ -21,8 +36,10 @@ SigAlgOK(s)   == HasSigAlg(s) /\ s.mut # "sigalg_unsupported"
 HasSig(s)     == s.mut # "sig_removed"
 HasMsg(s)     == s.mut # "msg_removed"
 \* the octet string the verifier rebuilds equals the one that was signed
-SameString(s) == s.mut \in {"none", "reordered", "extra_param"}
-                 \/ (s.mut = "relay_removed" /\ ~s.relay) \/ (s.mut = "relay_changed" /\ ~s.relay)
+HasRelay(s)   == s.relay # "none"
+SameString(s) == /\ RebuildSame(s)
+                 /\ \/ s.mut \in {"none", "reordered", "extra_param"}
+                    \/ (s.mut = "relay_removed" /\ ~HasRelay(s)) \/ (s.mut = "relay_changed" /\ ~HasRelay(s))
 SigIntact(s)  == s.mut # "sig_changed" /\ s.mut # "sig_other_message"
 
 Init == scn \in Scn /\ pc = "get_signer" /\ verdict = "none"
@@ -30,6 +47,7 @@ Init == scn \in Scn /\ pc = "get_signer" /\ verdict = "none"
 Done(v) == /\ pc' = "done" /\ verdict' = v /\ UNCHANGED scn
            /\ PrintT(<<"CASE", ToJson([scn |-> scn, model |-> v,
                                        mustVerify |-> (scn.mut \in {"none"} /\ scn.cert = "own"),
+                                       wireKeyOwn |-> TRUE,
                                        mustNotVerify |-> ~(SameString(scn) /\ SigIntact(scn) /\ SigAlgOK(scn) /\ HasSig(scn)
                                                            /\ HasMsg(scn) /\ scn.cert = "own")])>>)
 
@@ -55,4 +73,6 @@ Contract == pc = "done" =>
                      "sigalg_removed", "sigalg_unsupported", "sig_changed", "sig_other_message", "typ_swapped",
                      "msg_removed"} /\ ~SameString(scn) => verdict # "true")
     /\ (~SigAlgOK(scn) => verdict # "true")
+\* the octets put on the wire are the octets that were signed (saml-bindings 3.4.4.1: the signature is over the query as transmitted)
+WireContract == WireSame(scn)
 =============================================================================
